@@ -119,6 +119,10 @@ class Ctx:
                     print("KNOWN-FINDING: property=%s %s" % (self.pid, f["what"]))
                 return False
         self.nviol += 1
+        for v in self.violations:
+            if v["sig"] == sig:
+                v["count"] = v.get("count", 1) + 1
+                return True
         k = len(self.violations) + 1
         rd = os.path.join(self.replaydir, "%d" % k)
         shutil.rmtree(rd, ignore_errors=True)
